@@ -690,12 +690,17 @@ def o_ibi(c, opts, g, tabs, res):
             allowed = [du[lefts[-1]] if lefts else 0.0, du[rights[0]] if rights else 0.0]
             if not anyclose(v, allowed, 0, TOL):
                 # narrow class: the script restarts from 0 on each side of the maximum of g_cur
-                imax = 0
-                for j in range(n):
-                    if gc[j] > gc[imax] and gc[j] > 0:
-                        imax = j
-                between = range(k + 1, imax) if k < imax else range(imax, k)
-                if v == 0.0 and not any(valid[j] for j in between):
+                # (ties of the maximum: any of the tied rows may be the script's starting point)
+                gmax = max(gc)
+                starts = [j for j in range(n) if gc[j] == gmax] if gmax > 0 else [0]
+                imax = starts[0]
+                explained = False
+                for st in starts:
+                    between = range(k + 1, st) if k < st else range(st, k)
+                    if not any(valid[j] for j in between):
+                        explained, imax = True, st
+                        break
+                if v == 0.0 and explained:
                     c.fail("undefined-run-next-to-rdf-maximum-gets-zero",
                            "row %d is undefined, valid neighbours give %s, script wrote 0 (walk restarted at the maximum of g_cur, row %d)"
                            % (k, "|".join("%.6g" % a for a in allowed), imax))
